@@ -56,7 +56,7 @@ class C19(Prop):
             depth = rng.randint(0, 2)
             pipe = tg.chain(rng, src, ["delay", "delaysub", "subscribeon", "observeon", "debounce", "buftime"], depth, p_sync=0.15)
             mode = "mixed" if i % 3 else "fifo"
-            evs = tg.events(rng, rng.randint(3, 14), hot=(src[0] == "hot"), mode=mode, unsub_p=0.12)
+            evs = tg.events(rng, tg.hist_len(rng, 3, 14), hot=(src[0] == "hot"), mode=mode, unsub_p=0.12)
             fl = rng.choice(["local", "threads"])
             # thread-safe form: record the lock trace (hook H2) — the task body must run inside the
             # section of its handle's mutex, which is what makes unsubscribe() wait for it
